@@ -635,13 +635,24 @@ def run_agreement(case):
         ci = np.array(cols, dtype=np.int64).T
         st, D = call(bct.agreement, ci, t=5, retry=10); out['evals'] += 1; tally(out, 'agreement', st)
         det = {'n': n, 'ci_columns': cols}
-        if st == 'exc':
+        if st == 'exc' and NUMPY2_DUMMYVAR in D:
+            # the unrepaired dummyvar (`np.sum(<generator>)`, TypeError under NumPy 2): the clause is unobservable.  Only this exact
+            # message is tolerated; any other exception of agreement is a violation.
+            out['dist']['agreement_unobservable_numpy2_dummyvar'] = out['dist'].get('agreement_unobservable_numpy2_dummyvar', 0) + 1
+            res[name] = None
+        elif st == 'exc':
             out['viol'].append(('agreement', 'raises', dict(det, exception=D), {'exception': exc_name(D)}))
             res[name] = None
         elif st == 'ok':
             res[name] = np.asarray(D).astype(float).tolist()
             if res[name] != [[float(v) for v in r] for r in exp]:
                 out['viol'].append(('agreement', 'definition', dict(det, result=res[name], expected=exp), {}))
+            out['dist']['agreement_judged'] = out['dist'].get('agreement_judged', 0) + 1
+            # the buffered path (more partitions than `buffsz`) must give the same counts
+            for bs in (1, 2):
+                stb, Db = call(bct.agreement, ci, bs, t=5, retry=10); out['evals'] += 1; tally(out, 'agreement', stb)
+                if stb == 'exc' or (stb == 'ok' and np.asarray(Db).astype(float).tolist() != res[name]):
+                    out['viol'].append(('agreement', 'buffered-equals-unbuffered', dict(det, buffsz=bs, outcome=str(Db)[:300]), {'buffsz': bs}))
         if n <= 10:
             out['lean'].append(('agreement n=%d cs=%s' % (n, ';'.join(ints_str(c) for c in cols)), 'agreement', 'agreement', name, cols,
                                 ('val', res.get(name)), exp))
@@ -652,12 +663,18 @@ def run_agreement(case):
     for name, cols in (('identity', case['cols']), ('relabelled', case['cols2'])):
         st, D = call(bct.agreement_weighted, np.array(cols, dtype=np.int64), np.array([float(w) for w in wts]), t=5, retry=10)
         out['evals'] += 1; tally(out, 'agreement_weighted', st)
-        if st == 'exc':
+        if st == 'exc' and NUMPY2_DUMMYVAR in D:
+            out['dist']['agreement_unobservable_numpy2_dummyvar'] = out['dist'].get('agreement_unobservable_numpy2_dummyvar', 0) + 1
+        elif st == 'exc':
             out['viol'].append(('agreement_weighted', 'raises', {'n': n, 'ci_rows': cols, 'wts': [str(w) for w in wts], 'exception': D}, {'exception': exc_name(D)}))
         elif st == 'ok':
             resw[name] = np.asarray(D, dtype=float)
             if not np.allclose(resw[name], np.array([[float(x) for x in r] for r in expw]), rtol=0, atol=1e-12):
-                out['viol'].append(('agreement_weighted', 'definition', {'n': n, 'ci_rows': cols, 'result': resw[name].tolist()}, {}))
+                # as written, `dummyvar(ci[i, :].reshape(1, n))` reads one partition of n nodes as n partitions of one node, so every
+                # entry is n * sum(w)/sum(w) = n: the finding is accepted only for exactly that constant matrix
+                const_n = bool(resw[name].shape == (n, n) and np.allclose(resw[name], float(n), rtol=0, atol=1e-9))
+                out['viol'].append(('agreement_weighted', 'definition', {'n': n, 'ci_rows': cols, 'wts': [str(w) for w in wts], 'result': resw[name].tolist(),
+                                                                         'expected': [[float(x) for x in r] for r in expw]}, {'result_is_constant_n': const_n}))
         if n <= 10:
             out['lean'].append(('agreement_w n=%d cs=%s wts=%s' % (n, ';'.join(ints_str(c) for c in cols), ','.join(rat_str(w) for w in wts)),
                                 'agreement_weighted', 'agreement_w', name, cols, ('val', None), expw))
@@ -929,6 +946,7 @@ VKW = {v[0]: v[3] for v in variants()}
 PROBE_NOTE = 'object-reuse probes (common.reuse_probe) and f-g-f sequences on shared argument objects'
 MODEL_AT_32 = {'participation_coef/wu/undirected': 'identity', 'participation_coef_sign/su': 'shuffled', 'module_degree_zscore/wu/0': 'reversal',
                'diversity_coef_sign/su': 'identity', 'modularity_und_sign/su/sta': 'shuffled', 'modularity_und/wu/1': 'sparse'}
+NUMPY2_DUMMYVAR = 'Calling np.sum(generator) is deprecated'
 ZERO_NODE = []
 ROUTINES = ['participation_coef', 'participation_coef_sign', 'module_degree_zscore', 'diversity_coef_sign', 'gateway_coef_sign',
             'modularity_und', 'modularity_dir', 'modularity_und_sign', 'partition_distance', 'ci2ls', 'ls2ci', 'agreement', 'agreement_weighted']
@@ -1100,8 +1118,12 @@ def main():
     # ---- liveness bound: a watchdog timeout or an exception is never a pass by itself.  Every routine must return normally
     # on some call, time out on at most max(2, 1 %) of its calls, and raise only where a predicate judged it (gateway's known
     # IndexError must stay the minority outcome).  `agreement` is exempt from "returns normally" only while D18 is listed.
-    d18_open = any(k.get('id') == 'C14-D18-agreement-typeerror' for k in ck.known.get('open', []))
+    # agreement / agreement_weighted may never return normally only while the unrepaired dummyvar is what stops them (exact message seen)
+    d18_open = ck.dist.get('agreement_unobservable_numpy2_dummyvar', 0) > 0
     if d18_open:
+        print('NOTE property=C14: agreement / agreement_weighted are unobservable on this tree: dummyvar raises TypeError (np.sum(<generator>) under NumPy 2); '
+              'their clauses are judged as soon as the one-token repair sum(<generator>) is in /repo')
+        ck.assumptions.append('agreement clause unobservable on this tree (unrepaired dummyvar, exact NumPy-2 TypeError message detected)')
         ck.never_ok_exempt = {'agreement', 'agreement_weighted'}      # common.Check's own never-returns-normally rule: exempt only while D18 is listed
     for fn in ROUTINES:
         okc, exc, to = (ck.dist.get('outcome:%s:%s' % (fn, o), 0) for o in ('ok', 'exc', 'timeout'))
